@@ -578,3 +578,132 @@ func H_C07_assignNoAlias() {
 	vfReach("rendered")
 	vfAssert(data[0] == "a" && data[1] == "b", "the data ranged over is not modified")
 }
+
+type c07Top struct {
+	Name  string
+	Items []c07Item
+	M     map[string]int
+}
+
+type c07Item struct{ N int }
+
+// H_C07_issetAbsorbs: isset absorbs the failure of its argument. When that argument is an
+// exec() of a template that fails below a range (context rebound), an if-let (scope
+// pushed) or a yield with content, the statement that contains the isset goes on with
+// the '.' , the variables and the content it had: nothing of the abandoned bodies stays.
+//
+//gosym:reach rendered
+func H_C07_issetAbsorbs() {
+	subs := []string{
+		`{{ range .Items }}{{ v := 1 }}{{ .Missing.X }}{{ end }}`,
+		`{{ if q := 5; true }}{{ v := 2 }}{{ undefinedFn() }}{{ end }}`,
+		`{{ range k, e := .M }}{{ range .Items }}{{ v := 3 }}{{ undefinedFn() }}{{ end }}{{ end }}`,
+		`{{ block inner() }}<{{ yield content }}>{{ end }}{{ yield inner() content }}{{ v := 4 }}{{ .Missing.X }}{{ end }}`,
+		`{{ range .Items }}{{ if .N == 2 }}{{ return .Missing.X }}{{ end }}{{ end }}`,
+	}
+	sub := ndChoice("sub", len(subs))
+	withCtx := ndBool("ctx")
+	site := ndChoice("site", 4)
+	call := `exec("/sub.jet")`
+	if withCtx {
+		call = `exec("/sub.jet", .)`
+	}
+	probe := `{{ x := "local" }}{{ isset(` + call + `) }}|{{ .Name }}|{{ x }}|{{ isset(v) }}{{ isset(q) }}`
+	var src, want string
+	one := "false|top|local|falsefalse"
+	switch site {
+	case 0:
+		src, want = probe, one
+	case 1:
+		src, want = `{{ if y := 1; true }}`+probe+`{{ y }}{{ end }}`, one+"1"
+	case 2:
+		src = `{{ block w() }}` + probe + `[{{ yield content }}]{{ end }}{{ yield w() content }}C{{ .Name }}{{ end }}`
+		want = one + "[]" + one + "[Ctop]"
+	default:
+		src, want = `{{ `+call+` == nil ? "" : "" }}`+probe, one
+		// the failing exec outside isset is an error; only its position differs
+	}
+	set := hxSet(nil, "/m.jet", src, "/sub.jet", subs[sub])
+	data := c07Top{Name: "top", Items: []c07Item{{1}, {2}}, M: map[string]int{"a": 1}}
+	out, err := hxExec(set, "/m.jet", nil, data)
+	vfReach("rendered")
+	vfNote(out)
+	if site == 3 {
+		vfAssert(err != nil && out == "", "a failing exec outside isset fails the execution")
+		return
+	}
+	vfAssert(err == nil, "isset absorbs the failure")
+	vfAssert(out == want, "after isset '.', variables and content are those before it")
+}
+
+// H_C07_shadowedCall: the name of a built-in function ("upper", "len") bound to a function
+// of the user's in a local scope, an outer scope, the Execute VarMap or the Set globals,
+// and then called in every position a call can be written in - as the action's command,
+// as a pipe stage, on the right of :=, as an operand, in an if condition, as an argument of
+// another call, as a ternary branch, as an index: each call resolves the name like any
+// other reference does.
+//
+//gosym:reach user,builtin
+func H_C07_shadowedCall() {
+	level := ndChoice("level", 5) // 0 none, 1 local, 2 outer, 3 VarMap, 4 global
+	ni := ndChoice("name", 2)
+	name := []string{"upper", "len"}[ni]
+	pos := ndChoice("pos", 9)
+	call := name + `("ab")`
+	uses := []string{
+		`{{ ` + call + ` }}`,
+		`{{ "ab" | ` + name + ` }}`,
+		`{{ r := ` + call + ` }}{{ r }}`,
+		`{{ "" + ` + call + ` + "!" }}`,
+		`{{ if ` + call + ` == want }}yes{{ else }}no{{ end }}`,
+		`{{ id(` + call + `) }}`,
+		`{{ true ? ` + call + ` : "" }}`,
+		`{{ m[` + call + `] }}`,
+		`{{ range k, v := pair }}{{ ` + call + ` }}{{ end }}`,
+	}
+	src := ""
+	if level == 2 {
+		src += `{{ ` + name + ` := mine }}`
+	}
+	src += `{{ if true }}`
+	if level == 1 {
+		src += `{{ ` + name + ` := mine }}`
+	}
+	src += uses[pos] + `{{ end }}`
+	set := hxSet(nil, "/m.jet", src)
+	mine := func(s string) string { return "mine" }
+	vars := make(VarMap)
+	vars.Set("mine", mine)
+	vars.Set("id", func(v interface{}) interface{} { return v })
+	vars.Set("pair", []int{1})
+	vars.Set("m", map[interface{}]string{"mine": "mine", "AB": "AB", 2: "2"})
+	if level == 3 {
+		vars.Set(name, mine)
+	}
+	if level == 4 {
+		set.AddGlobal(name, mine)
+	}
+	res := "mine"
+	if level == 0 {
+		vfReach("builtin")
+		res = []string{"AB", "2"}[ni]
+	} else {
+		vfReach("user")
+	}
+	if name == "len" && level == 0 {
+		vars.Set("want", 2)
+	} else {
+		vars.Set("want", res)
+	}
+	out, err := hxExec(set, "/m.jet", vars, nil)
+	vfAssert(err == nil, "renders")
+	want := res
+	switch pos {
+	case 3:
+		want = res + "!"
+	case 4:
+		want = "yes"
+	}
+	vfNote(out)
+	vfAssert(out == want, "a call resolves its name innermost scope first, built-ins last")
+}
